@@ -19,7 +19,7 @@ func init() {
 		Meta: report.Meta{
 			Property: "C16",
 			Rule: "Go function types built with reflect.FuncOf over the type alphabet {int, int8, int16, int32, int64, uint, float32, float64, bool, string, named variants of int / float64 / string / bool, struct{}, []int, error, a concrete pointer error type, a struct error type used by value, an Errno-like error type, chan error, <-chan error, chan int}: " +
-				"FP: every parameter list of 0-2 (quick) / 0-3 (thorough) types plus optional variadic tail x 3 result shapes; FR: every result list of 0-2 types x 2 parameter shapes; CP / CR: the same for commands (results none / error / channel shapes); WIDE: functions and commands of 4-12 (quick) / 16 (thorough) int parameters with one parameter of every other bridgeable type at every position, called with matching arguments, every single-argument replacement and n-1 / n+1 arguments; AB: a converted command abandoned by RestoreAt while its handler runs, then executed again (each call reports its own outcome); NF: non-function values {nil, 0, \"f\", struct{}{}, a channel, a pointer to a function}; " +
+				"FP: every parameter list of 0-2 (quick) / 0-3 (thorough) types plus optional variadic tail x 3 result shapes; FR: every result list of 0-2 types x 2 parameter shapes; CP / CR: the same for commands (results none / error / channel shapes); WIDE: functions and commands of 4-12 (quick) / 16 (thorough) int parameters with one parameter of every other bridgeable type at every position, called with matching arguments, every single-argument replacement and n-1 / n+1 arguments; NAMES: two distinct types printed alike as parameter types of two handlers, every order, one or two runners, functions and commands; REFUSED-KEEPS: every kind of refused registration under a name that already has a handler (host function / command, built-ins floor, string, visited), after which the existing handler must answer as before; AB: a converted command abandoned by RestoreAt while its handler runs, then executed again (each call reports its own outcome); NF: non-function values {nil, 0, \"f\", struct{}{}, a channel, a pointer to a function}; " +
 				"each registered through ConvertAndAddFunction / ConvertAndAddCommand with a reflect.MakeFunc probe; for every accepted registration every argument list of length 0-3 (quick) / 0-4 (thorough) over {number 3.7, number -2, number 5000000000 (beyond 32 bits; only compared for parameter kinds it fits), boolean, string} is sent through real script calls (<<call f(..)>>, {f(..)}, <<cmd ..>>); " +
 				"oracle (implications only): registration never panics; non-functions and signatures with a parameter or result outside the bridgeable kinds are refused; if accepted, a call never panics, a count / type mismatch is an error, a matching call delivers the Go conversion of each script value to the declared type and the result (or error) comes back converted; " +
 				"a case is one (signature, argument list, call form); non-trivial = accepted signature",
@@ -65,6 +65,32 @@ func c16Types() []tinfo {
 		{reflect.TypeOf((chan error)(nil)), false, false}, {reflect.TypeOf((<-chan error)(nil)), false, false}, {reflect.TypeOf((chan int)(nil)), false, false},
 		{reflect.TypeOf(valErr{}), false, false}, {reflect.TypeOf(errno(0)), false, true},
 	}
+}
+
+// sameNameTypes returns two distinct defined types of the given underlying kind (0 int, 1 float64, 2 string, 3 bool)
+// that print alike: both are called Level, declared in two different function scopes.
+func sameNameTypes(kind int) (reflect.Type, reflect.Type) {
+	a := func() []reflect.Type {
+		type Level int
+		type Ratio float64
+		type Label string
+		type Flag bool
+		return []reflect.Type{reflect.TypeOf(Level(0)), reflect.TypeOf(Ratio(0)), reflect.TypeOf(Label("")), reflect.TypeOf(Flag(false))}
+	}()
+	b := func() []reflect.Type {
+		type Level int
+		type Ratio float64
+		type Label string
+		type Flag bool
+		return []reflect.Type{reflect.TypeOf(Level(0)), reflect.TypeOf(Ratio(0)), reflect.TypeOf(Label("")), reflect.TypeOf(Flag(false))}
+	}()
+	return a[kind], b[kind]
+}
+
+// exampleOf is the value the script argument of NAMES becomes in type t.
+func exampleOf(t reflect.Type, kind int) any {
+	v := []any{3, 2.5, "s", true}[kind]
+	return reflect.ValueOf(v).Convert(t).Interface()
 }
 
 var errProbe = errors.New("probe failed on purpose")
@@ -810,6 +836,183 @@ func runC16(ctx *report.Ctx) {
 			testCommand(c, "WIDE", reflect.FuncOf(in, nil, false), false)
 		case 2:
 			testCommand(c, "WIDE", reflect.FuncOf(in, []reflect.Type{errorType}, false), true)
+		}
+	})
+
+	// NAMES: what a registration means does not depend on other registrations. (1) Two distinct Go types with the same
+	// printed name (declared in different scopes) as parameter types of two handlers, registered in either order on
+	// one runner or on two: each is called with its own converted argument. (2) A refused registration under a name
+	// that already has a handler (the host's, or a built-in one) leaves that handler in place.
+	part(ctx, "NAMES", -1, func(c *explore.Chooser) {
+		kind := c.Choose(4, "underlying-kind")
+		order := c.Choose(2, "order")
+		twoRunners := c.Choose(2, "runners") == 1
+		asCommand := c.Choose(2, "command") == 1
+		if !c.Mine() {
+			return
+		}
+		ta, tb := sameNameTypes(kind)
+		arg := []string{"3", "2.5", `"s"`, "true"}[kind]
+		word := []string{"3", "2.5", "s", "true"}[kind]
+		script := "title: A\n---\n<<call fa(" + arg + ")>>\none\n<<call fb(" + arg + ")>>\ntwo\n===\n"
+		if asCommand {
+			script = "title: A\n---\n<<fa " + word + ">>\none\n<<fb " + word + ">>\ntwo\n===\n"
+		}
+		witness := fmt.Sprintf("handlers fa(%s) and fb(%s): two distinct types printed alike, registered %s on %s, as %s", ta, tb, []string{"fa first", "fb first"}[order], []string{"one runner", "two runners"}[b2i(twoRunners)], []string{"functions", "commands"}[b2i(asCommand)])
+		ctx.Current("NAMES: " + witness)
+		ctx.AddEvals(1, 1)
+		ctx.AddStates(1)
+		ctx.AddTraces(1)
+		r1, err, pan := yc.NewReal([]string{script}, "abc", nil)
+		r2 := r1
+		if twoRunners && err == nil && pan == "" {
+			r2, err, pan = yc.NewReal([]string{script}, "abc", nil)
+		}
+		if err != nil || pan != "" {
+			ctx.HarnessError("C16 NAMES: script does not load: %v %s", err, pan)
+			return
+		}
+		var got []string
+		mk := func(name string, t reflect.Type) reflect.Value {
+			ft := reflect.FuncOf([]reflect.Type{t}, nil, false)
+			return reflect.MakeFunc(ft, func(in []reflect.Value) []reflect.Value {
+				got = append(got, fmt.Sprintf("%s(%v as %s)", name, in[0].Interface(), in[0].Type()))
+				return nil
+			})
+		}
+		reg := func(r *yc.Real, name string, t reflect.Type) (e error, p any) {
+			p = guard(func() {
+				if asCommand {
+					e = r.DR.ConvertAndAddCommand(name, mk(name, t).Interface())
+				} else {
+					e = r.DR.ConvertAndAddFunction(name, mk(name, t).Interface())
+				}
+			})
+			return
+		}
+		type regn struct {
+			r    *yc.Real
+			name string
+			t    reflect.Type
+		}
+		regs := []regn{{r1, "fa", ta}, {r2, "fb", tb}}
+		if twoRunners {
+			// each runner needs both names; the second runner gets them in the other order
+			regs = []regn{{r1, "fa", ta}, {r2, "fb", tb}, {r1, "fb", tb}, {r2, "fa", ta}}
+		}
+		if order == 1 {
+			regs[0], regs[1] = regs[1], regs[0]
+		}
+		for _, g := range regs {
+			if e, p := reg(g.r, g.name, g.t); p != nil || e != nil {
+				report1(c, "NAMES", "register-unstable", witness, fmt.Sprintf("registering %s failed: %v %v", g.name, e, p))
+				return
+			}
+		}
+		for _, r := range []*yc.Real{r1, r2} {
+			got = nil
+			waits := 0
+			for step := 0; step < 4; step++ {
+				ro := r.Next(0)
+				ctx.AddTransitions(1)
+				if ro.Panic != "" {
+					report1(c, "NAMES", "call-panic", witness, "Next panicked: "+ro.Panic)
+					return
+				}
+				if ro.Waiting && waits < 300000 { // up to 30 s: only a handler that never completes gets there
+					// a converted command without result runs on its own goroutine: poll (no oracle depends on the time)
+					waits++
+					step--
+					time.Sleep(100 * time.Microsecond)
+					continue
+				}
+				if ro.K == yc.OError {
+					report1(c, "NAMES", "result-error", witness, "a matching call was answered with an error: "+ro.String())
+					return
+				}
+				if ro.K == yc.OEnd {
+					break
+				}
+			}
+			want := fmt.Sprintf("fa(%v as %s);fb(%v as %s)", exampleOf(ta, kind), ta, exampleOf(tb, kind), tb)
+			if strings.Join(got, ";") != want {
+				report1(c, "NAMES", "arguments", witness, fmt.Sprintf("invocations [%s], expected [%s]", strings.Join(got, ";"), want))
+				return
+			}
+			if r1 == r2 {
+				break
+			}
+		}
+	})
+	part(ctx, "REFUSED-KEEPS", -1, func(c *explore.Chooser) {
+		name := []string{"f", "floor", "string", "visited"}[c.Choose(4, "name")]
+		bad := c.Choose(5, "refused-value")
+		asCommand := c.Choose(2, "command") == 1
+		if !c.Mine() {
+			return
+		}
+		if asCommand && name != "f" {
+			return
+		}
+		script := map[string]string{"f": "title: A\n---\nr={f(2)}\n===\n", "floor": "title: A\n---\nr={floor(2.5)}\n===\n", "string": "title: A\n---\nr={string(2)}\n===\n", "visited": "title: A\n---\nr={visited(\"A\")}\n===\n"}[name]
+		want := map[string]string{"f": "r=4", "floor": "r=2", "string": "r=2", "visited": "r=False"}[name]
+		if asCommand {
+			script, want = "title: A\n---\n<<f 2>>\nr=done\n===\n", "r=done"
+		}
+		badValue := []any{func(uint) uint { return 0 }, 42, func(struct{}) int { return 0 }, func() (int, int, int) { return 0, 0, 0 }, "not a function"}[bad]
+		witness := fmt.Sprintf("a refused registration (%T) under the name %s, which already has a handler (%s)", badValue, name, []string{"function", "command"}[b2i(asCommand)])
+		ctx.Current("REFUSED-KEEPS: " + witness)
+		ctx.AddEvals(1, 1)
+		ctx.AddStates(1)
+		ctx.AddTraces(1)
+		r, err, pan := yc.NewReal([]string{script}, "abc", nil)
+		if err != nil || pan != "" {
+			ctx.HarnessError("C16 REFUSED-KEEPS: script does not load: %v %s", err, pan)
+			return
+		}
+		invoked := 0
+		if name == "f" {
+			if asCommand {
+				err = r.DR.ConvertAndAddCommand("f", func(i int) { invoked++ })
+			} else {
+				err = r.DR.ConvertAndAddFunction("f", func(i int) int { invoked++; return 2 * i })
+			}
+			if err != nil {
+				ctx.HarnessError("C16 REFUSED-KEEPS: valid registration refused: %v", err)
+				return
+			}
+		}
+		var regErr error
+		p := guard(func() {
+			if asCommand {
+				regErr = r.DR.ConvertAndAddCommand(name, badValue)
+			} else {
+				regErr = r.DR.ConvertAndAddFunction(name, badValue)
+			}
+		})
+		if p != nil {
+			report1(c, "REFUSED-KEEPS", "register-panic", witness, fmt.Sprintf("the registration panicked: %v", p))
+			return
+		}
+		if regErr == nil {
+			return // accepted (a uint signature may be): nothing to say here
+		}
+		var ro yc.RealObs
+		for k := 0; k < 300000; k++ { // up to 30 s: only a handler that never completes gets there
+			ro = r.Next(0)
+			ctx.AddTransitions(1)
+			if !ro.Waiting {
+				break
+			}
+			time.Sleep(100 * time.Microsecond)
+		}
+		switch {
+		case ro.Panic != "":
+			report1(c, "REFUSED-KEEPS", "call-panic", witness, "after the refused registration, calling the existing handler panicked: "+ro.Panic)
+		case ro.K != yc.OLine || ro.Text != want:
+			report1(c, "REFUSED-KEEPS", "refused-registration-changed-something", witness, fmt.Sprintf("after the refused registration the existing handler no longer answers as before: expected line %q, got %s", want, ro.String()))
+		case name == "f" && invoked != 1:
+			report1(c, "REFUSED-KEEPS", "refused-registration-changed-something", witness, fmt.Sprintf("the existing handler was invoked %d times", invoked))
 		}
 	})
 
